@@ -855,8 +855,17 @@ def coq_decl(name):
     return "(Constrained " + lib.clist([uni.coq_sval(c) for c in d[1]]) + ")"
 
 
+def has_receiver(sig):
+    """methods, classmethods and dataclass constructors are modelled as the underlying function called
+    with the receiver prepended (Signature.bind_self / the synthesized __init__): the model signature gets
+    an unannotated first parameter and the model call an extra first positional argument"""
+    return sig["flavor"] in ("method", "classmethod", "dataclass")
+
+
 def coq_sig(sig):
     ps = []
+    if has_receiver(sig):
+        ps.append("mk_cparam (mkParam 99%N POK false) AnnNone None")
     for p in sig["params"]:
         d = "None" if p["default"] is None else f"(Some {coq_aval(p['default'])})"
         ps.append(f"mk_cparam (mkParam {lib.cn(name_code(p['name'], sig))} {KINDS[p['kind']]} {lib.cbool(p['default'] is not None)}) {coq_ann(p['ann'])} {d}")
@@ -864,7 +873,7 @@ def coq_sig(sig):
 
 
 def coq_call(sig, call):
-    pos = lib.clist([coq_aval(a) for a in call["pos"]])
+    pos = lib.clist((["(AV (obj_val O_instC))"] if has_receiver(sig) else []) + [coq_aval(a) for a in call["pos"]])
     kw = lib.clist([f"({lib.cn(name_code(n, sig))}, {coq_aval(a)})" for n, a in call["kw"]])
     star = "None" if call.get("star") is None else f"(Some (AV {sv(call['star'])}))"
     starkw = "None" if call.get("starkw") is None else f"(Some (AV {sv(call['starkw'])}))"
